@@ -3,8 +3,9 @@ package checks
 import (
 	"time"
 
+	"github.com/glebziz/fs_db/verifh/enum"
 	_ "github.com/glebziz/fs_db/verifh/grpch"
-
+	"github.com/glebziz/fs_db/verifh/hk"
 	"github.com/glebziz/fs_db/verifh/seq"
 )
 
@@ -31,8 +32,8 @@ func c13(tier string) int {
 		conf = []seq.Plan{{Family: "real-late", Params: "slots=2,levels=RU.RC.RR", From: 4, To: 4}}
 	}
 	return seqCheckConf("C13", tier, 90*time.Second, 10*time.Minute, plans, conf,
-		"all histories up to the stated depth in which, besides Begin/Set/Commit/Rollback and autocommit writes, every operation (Get, GetReader, GetKeys, Set, SetReader, Create, Delete, Commit, Rollback) is issued through handles of finished transactions (committed, failed, rolled back) and through a transaction id the database never issued; after every step all open transactions (RU included), the autocommit handle and the finished handles read; restart and re-read at the end",
-		append([]string{"Commit/Rollback for a never-issued id are exercised through the gRPC client only (the inline client has no handle for it)"}, seqAssumptions...))
+		"all histories up to the stated depth in which, besides Begin/Set/Commit/Rollback and autocommit writes, every operation (Get, GetReader, GetKeys, Set, SetReader, Create, Delete, Commit, Rollback) is issued through handles of finished transactions (committed, failed, rolled back) and through a transaction id the database never issued (Commit and Rollback also naming the all-zero id and no id); after every step all open transactions (RU included), the autocommit handle and the finished handles read; restart and re-read at the end",
+		append([]string{"Commit/Rollback naming a never-issued id, the all-zero id (the store's own name for 'no transaction') or no id at all are issued without a handle: a raw protocol call in the gRPC tier, the transaction use case of the instance's container (what the server's handler calls) in the inline tier"}, seqAssumptions...))
 }
 
 func c14(tier string) int {
@@ -49,8 +50,12 @@ func c14(tier string) int {
 			{Family: "disk", Params: "keys=2,slots=3,levels=RC.RR,close=1", From: 1, To: 5},
 		}
 	}
-	return seqCheck("C14", tier, 90*time.Second, 15*time.Minute, plans,
-		"all fault-free histories up to the stated depth of autocommit and transactional writes, deletes, commits, failed commits and rollbacks; epilogue: roll back what is open, exact quiescence, one GC pass, quiescence, then the roots must hold exactly one content file per readable key with that key's bytes, all directly inside <root>/<uuid>/; variant close=1: Close immediately after the history (work pending), new process, reopen, same epilogue",
+	bulk := []enum.Plan{{Family: "bulk", Params: "maxn=24"}}
+	if tier == "thorough" {
+		bulk = []enum.Plan{{Family: "bulk", Params: "maxn=64"}}
+	}
+	return seqEnumCheck("C14", tier, 90*time.Second, 15*time.Minute, plans, bulk,
+		"all fault-free histories up to the stated depth of autocommit and transactional writes, deletes, commits, failed commits and rollbacks; epilogue: roll back what is open, exact quiescence, one GC pass, quiescence, then the roots must hold exactly one content file per readable key with that key's bytes, all directly inside <root>/<uuid>/; variant close=1: Close immediately after the history (work pending), new process, reopen, same epilogue; plus the size dimension (family bulk): one transaction or the autocommit caller issuing n = 1..24 (thorough 64) writes in six shapes (n overwrites of one key committed / rolled back / autocommitted, n keys committed and reopened, n keys in a refused snapshot commit, n keys deleted), same epilogue with and without a restart",
 		seqAssumptions)
 }
 
@@ -64,7 +69,31 @@ func c09(tier string) int {
 			{Family: "gcdiff", Params: "keys=2,slots=2,levels=RR.RC,maxgc=2", From: 1, To: 5},
 		}
 	}
-	return seqCheck("C09", tier, 90*time.Second, 15*time.Minute, plans,
-		"every GC-free history up to the stated depth (snapshot, RC and RU transactions of different ages, several versions per key) re-run with the collector (virtual GC period elapsing, production path Sched->Send->worker->DeleteOld) inserted at every subset of positions of size <= maxgc, including before the first operation of a just-begun transaction and between its reads; every read of every actor after every step equals the model, for which GC is the identity, and delivers its bytes",
+	ages := []enum.Plan{{Family: "ages", Params: "maxn=12"}}
+	if tier == "thorough" {
+		ages = []enum.Plan{{Family: "ages", Params: "maxn=40"}}
+	}
+	return seqEnumCheck("C09", tier, 90*time.Second, 15*time.Minute, plans, ages,
+		"every GC-free history up to the stated depth (snapshot, RC and RU transactions of different ages, several versions per key) re-run with the collector (virtual GC period elapsing, production path Sched->Send->worker->DeleteOld) inserted at every subset of positions of size <= maxgc, including before the first operation of a just-begun transaction and between its reads; every read of every actor after every step equals the model, for which GC is the identity, and delivers its bytes; plus the age dimension (family ages): n = 1..12 (thorough 40) transactions begun one after another with an overwrite after each, five level patterns, the collector after the last Begin and after every end, three end orders, Rollback or Commit, two background policies — every open transaction reads its own version after every step",
 		seqAssumptions)
+}
+
+// seqEnumCheck: sequential plans plus enumerated case families under one reporter and budget.
+func seqEnumCheck(id, tier string, quick, thorough time.Duration, plans []seq.Plan, eplans []enum.Plan, rule string, assumptions []string) int {
+	budget := hk.NewBudget(dur(tier, quick, thorough))
+	rp := hk.NewReporter(id)
+	sum := seq.RunPlans(rp, plans, budget, verbose())
+	cov := sum.Coverage(rule)
+	es := enum.RunPlans(rp, eplans, budget, verbose())
+	cov["enumerated_cases_per_family"] = es.Families
+	cov["enumerated_cases_complete"] = es.AllComplete
+	cov["enumerated_case_comparisons"] = es.Checks
+	if ex, ok := cov["exhaustive"].(bool); ok {
+		cov["exhaustive"] = ex && es.AllComplete
+	}
+	if n, ok := cov["traces_validated_against_impl"].(int64); ok {
+		cov["traces_validated_against_impl"] = n + es.Cases
+	}
+	ev := &hk.Evidence{PropertyID: id, Tier: tier, Level: "model_checking", Coverage: cov, Assumptions: assumptions}
+	return finish(rp, ev, budget)
 }
